@@ -1,10 +1,19 @@
 #!/bin/bash
 # usage: tools/try_patch.sh <patch.diff> <property> [tier] [seed]
-# Applies a seeded change to /repo, runs the check of the property, and always restores /repo.
+# Applies a seeded change to /repo, runs the check of the property, and always restores /repo,
+# the monitor binaries and the evidence file (evidence must only ever come from the unchanged tree).
 patch=$(readlink -f "$1"); prop=$2; tier=${3:-quick}; seed=${4:-1}
 cd /repo || exit 2
 if ! git diff --quiet; then echo "/repo has local changes, refusing"; exit 2; fi
-restore() { git -C /repo checkout -- . ; (cd /verif/monitor && cargo build -q -p cqmon -p desmon 2>/dev/null); }
+ev=/verif/evidence/$prop.json
+bak=$(mktemp)
+[ -f "$ev" ] && cp "$ev" "$bak"
+restore() {
+  git -C /repo checkout -- .
+  (cd /verif/monitor && cargo build -q -p cqmon -p desmon 2>/dev/null)
+  [ -s "$bak" ] && cp "$bak" "$ev"
+  rm -f "$bak"
+}
 trap restore EXIT
 git apply "$patch" || { echo "patch does not apply"; exit 2; }
 cd /verif && VERIF_SEED=$seed ./check "$prop" "$tier"
